@@ -76,5 +76,25 @@ pub fn c03(o: &Opts) -> Outcome {
             if let Some(w) = header_k(k, d) { return Outcome { cases, witness: Some(w) }; }
         }
     }
+    // columns really are the ranks, also for k beyond the CLI range: a k-mer with a high rank lands in its own column
+    for k in [8usize, 9, 10] {
+        let tail: Vec<u8> = std::iter::repeat(b'T').take(k / 2).chain(std::iter::repeat(b'A').take(k - k / 2)).collect();
+        let recs = vec![tail.clone(), [b"GGGTTTCCCAAAGGGTTT".to_vec(), tail].concat()];
+        cases += 1;
+        let out = crate::p_rows::run_oligo(&recs, k, false, 2, " ", false, None);
+        let why = match out {
+            Err(e) => e,
+            Ok(text) => {
+                let lines: Vec<&str> = text.split('\n').collect();
+                let mut w = String::new();
+                for (i, r) in recs.iter().enumerate() {
+                    if i >= lines.len() { w = "missing row".into(); break; }
+                    if let Err(e) = crate::p_rows::row_matches(lines[i], r, k, false, " ") { w = format!("row {}: {}", i, e); break; }
+                }
+                w
+            }
+        };
+        if !why.is_empty() { return Outcome { cases, witness: Some(vec![("k".into(), k.to_string()), ("why".into(), why)]) }; }
+    }
     Outcome { cases, witness: None }
 }
